@@ -102,3 +102,8 @@ def renderAssoc (m : Assoc) : String :=
   if m.isEmpty then "-" else ",".intercalate (m.map fun p => s!"{p.1}={p.2}")
 
 end DataId
+
+namespace DataId
+/-- `dict.setdefault(k, v)` (used by the translation of `standardize`, `Gen/StandardizePy.lean`) -/
+def setdefault (m : Assoc) (k v : Nat) : Assoc := if (getv m k).isSome then m else m ++ [(k, v)]
+end DataId
